@@ -1419,7 +1419,8 @@ static void hnd_tput(coap_resource_t *r, coap_session_t *s, const coap_pdu_t *re
   const uint8_t *data = NULL;
   (void)r; (void)s; (void)q;
   s_req++;
-  if (coap_get_data(req, &len, &data) && (len == 400 || len == 1200) && !memcmp(data, body, len)) tcp_put_ok++; else tcp_put_bad++;
+  if (coap_get_data(req, &len, &data) && (len == 400 || len == 1200) && !memcmp(data, body, len)) tcp_put_ok++; else { tcp_put_bad++;
+    if (getenv("H_DEBUG")) { size_t i = 0; while (data && i < len && data[i] == body[i]) i++; fprintf(stderr, "TPUT-BAD len=%zu first-mismatch=%zu\n", len, i); } }
   coap_pdu_set_code(rsp, COAP_RESPONSE_CODE_CHANGED);
 }
 static void tcp_send(coap_session_t *s, int code, int tokb, const char *path, size_t plen) {
@@ -1444,6 +1445,20 @@ static void tcp_world_down(void) {
   if (ts2) coap_session_release(ts2);
   ts1 = ts2 = NULL; tep = NULL;
 }
+/* wsp: the second session's socket takes only half of every large write (a non-blocking socket with a full send buffer):
+ * coap_ws_write keeps the progress within the frame, the rest goes out when the socket is writable again, and the server
+ * gets the frame's payload in several reads (coap_ws_read keeps what it has in ws->rx_data) */
+static ssize_t wsp_write(coap_session_t *session, const uint8_t *data, size_t datalen) {
+  ssize_t r = coap_netif_strm_write(session, data, datalen > 300 ? datalen / 2 : datalen);
+  if (r >= 0 && (size_t)r < datalen) {
+    /* what coap_socket_write does after a short send(): ask for the socket to become writable (coap_send_pdu queues
+     * later messages behind the unfinished one while this flag is set) */
+    session->sock.flags |= COAP_SOCKET_WANT_WRITE;
+    coap_epoll_ctl_mod(&session->sock, EPOLLOUT | ((session->sock.flags & COAP_SOCKET_WANT_READ) ? EPOLLIN : 0), __func__);
+  }
+  return r;
+}
+static int ws_split;
 static void scn_stream(coap_proto_t proto) {
   coap_address_t a;
   ts1 = ts2 = NULL; tep = NULL; tcp_put_ok = tcp_put_bad = 0;
@@ -1464,6 +1479,7 @@ static void scn_stream(coap_proto_t proto) {
     coap_str_const_t h = { sizeof(host) - 1, host };
     if (ts1 && !coap_ws_set_host_request(ts1, &h)) out_put("nohost1");
     if (ts2 && !coap_ws_set_host_request(ts2, &h)) out_put("nohost2");
+    if (ts2 && ws_split) ts2->sock.lfunc[COAP_LAYER_WS].l_write = wsp_write;
   }
   out_put("sess%d%d", !!ts1, !!ts2);
   settle(30000);
@@ -1488,7 +1504,8 @@ static void scn_stream(coap_proto_t proto) {
 }
 
 static void scn_tcp(void) { scn_stream(COAP_PROTO_TCP); }
-static void scn_ws(void) { scn_stream(COAP_PROTO_WS); }
+static void scn_ws(void) { ws_split = 0; scn_stream(COAP_PROTO_WS); }
+static void scn_wsp(void) { ws_split = 1; scn_stream(COAP_PROTO_WS); ws_split = 0; }
 
 /* the canary: with memory available a fresh CON GET /r must be answered 2.05 */
 static int canary_once(void) {
@@ -1558,7 +1575,7 @@ static const struct { const char *name; void (*fn)(void); } scns[] = {
   {"setup", scn_setup}, {"osc", scn_osc}, {"h508", scn_h508},
   {"wkc", scn_wkc}, {"b1raw", scn_b1raw}, {"b2raw", scn_b2raw}, {"obsblk", scn_obsblk}, {"cache", scn_cache}, {"async", scn_async},
   {"obsre", scn_obsre}, {"obsfetch", scn_obsfetch}, {"oscobs", scn_oscobs}, {"echo", scn_echo}, {"xtok", scn_xtok},
-  {"dly", scn_dly}, {"tcp", scn_tcp}, {"ws", scn_ws},
+  {"dly", scn_dly}, {"tcp", scn_tcp}, {"ws", scn_ws}, {"wsp", scn_wsp},
 };
 
 static void on_alarm(int sig) {
